@@ -72,9 +72,20 @@ class O:
         return f"O({self.guid},{self.name})"
 
 
+def _content(d):
+    """Content of mutable data objects (the tree is 'unchanged' only if what its nodes carry is, too)."""
+    inner = getattr(d, "_dict", None)
+    if isinstance(inner, dict):
+        return sorted((repr(k), repr(v)) for k, v in inner.items())
+    if isinstance(d, O):
+        return (d.guid, d.name)
+    return None
+
+
 def ident(t):
     def rec(h):
-        return [(id(c), id(c.data), c.data_id, getattr(c, "kind", None), dict(c.meta) if c.meta else None, id(c.parent), id(c.tree), rec(c))
+        return [(id(c), id(c.data), c.data_id, getattr(c, "kind", None), dict(c.meta) if c.meta else None, id(c.parent), id(c.tree),
+                 _content(c.data), rec(c))
                 for c in h.children]
 
     return (t.count, rec(t))
@@ -105,7 +116,15 @@ def _build(case, *, calc=None, typed=False):
     n = gen.size(f)
     cls = TypedTree if typed else Tree
     t = cls("t", calc_data_id=calc) if calc else cls("t")
-    if case["lab"] == "obj":
+    if case["lab"] == "dw":
+        from nutree.common import DictWrapper
+
+        dicts = [{"title": "".join(["T", str(i % 3)]), "n": i, "kind_of": "x"} for i in range(max(2, n // 2 + 1))]
+        labs = gen.clone_labeling(rng, f, list(range(len(dicts)))) or list(range(n))
+        if len(dicts) < n and labs == list(range(n)):
+            dicts = [{"title": "".join(["T", str(i % 3)]), "n": i, "kind_of": "x"} for i in range(n)]
+        label = lambda i: DictWrapper(dicts[labs[i]])
+    elif case["lab"] == "obj":
         pool = [O(f"g{i}", f"o{i}") for i in range(max(2, n // 2 + 1))]
         labs = gen.clone_labeling(rng, f, list(range(len(pool)))) or list(range(n))
         if len(pool) < n and labs == list(range(n)):
@@ -198,6 +217,17 @@ def _(case, F):
         return data
 
     return [t], (lambda: t.save(io.StringIO(), mapper=ser)), True, fy
+
+
+@cell("mapper:save_dictwrapper", lab="dw")
+def _(case, F):
+    from nutree.common import DictWrapper
+
+    fy = F(lambda node, data: DictWrapper.serialize_mapper(node, data))
+    t, nodes = _build(case)
+    kw = {"key_map": {"title": "t", "n": "n"}, "value_map": {"title": ["T0", "T1", "T2"]}}
+    return [t], (lambda: (t.save(io.StringIO(), mapper=fy, **kw), t.save(io.StringIO(), mapper=fy, key_map=False, value_map=False),
+                          t.to_dict_list(mapper=fy))), True, fy
 
 
 @cell("calc_id:copy", lab="obj")
